@@ -686,6 +686,17 @@ class Evaluator:
         return out
 
     def s_For(self, st, fr):
+        # `xs = []` followed by `for t in seq: xs.append(e)` is the list comprehension `[e for t in seq]`
+        if len(st.body) == 1 and not st.orelse and isinstance(st.body[0], ast.Expr) and isinstance(st.body[0].value, ast.Call):
+            c_ = st.body[0].value
+            if isinstance(c_.func, ast.Attribute) and c_.func.attr == "append" and isinstance(c_.func.value, ast.Name) and len(c_.args) == 1 and not c_.keywords \
+                    and fr.env.get(c_.func.value.id) == ("list", ()) \
+                    and not any(isinstance(n_, ast.Name) and n_.id == c_.func.value.id for n_ in ast.walk(c_.args[0])):
+                comp_ = ast.ListComp(elt=c_.args[0], generators=[ast.comprehension(target=st.target, iter=st.iter, ifs=[], is_async=0)])
+                ast.copy_location(comp_, st)
+                ast.fix_missing_locations(comp_)
+                fr.env[c_.func.value.id] = self.expr(comp_, fr)
+                return None
         it = self.expr(st.iter, fr)
         lid = next(self._ids)
         items = None
